@@ -463,6 +463,7 @@
 (define-fun bool_of ((v cty.Value)) Bool (unbox<bool> (inner_v v)))
 ; "Equals answers a known True" as a view of the two operands (Equals is assumed to be a function of them)
 (declare-fun eq_true (cty.Value cty.Value) Bool)
+(declare-fun eq_false (cty.Value cty.Value) Bool)
 (define-fun is_unk_payload ((v cty.Value)) Bool ((_ is box<*cty.unknownType>) (cty.Value.v v)))
 
 ; ---- paths (C19) -------------------------------------------------------------------------------
